@@ -8,7 +8,7 @@
   rounding of `+ - * /`.
 -/
 import ShelxModel.C15
-import ShelxModel.Extracted.C15Dir
+import ShelxModel.Extracted.C15Src
 import Mathlib.Tactic.Ring
 import Mathlib.Tactic.Linarith
 import Mathlib.Tactic.FieldSimp
@@ -740,16 +740,145 @@ theorem mem_filterIdx {α : Type} (p : Nat → α → Bool) (l : List α) (k j :
         rw [this, List.getElem?_cons_succ] at hb; exact hb
 
 
-/-- **extracted_direction_eq_triple**: the sign expression *as the source has it now* — read off
-    `Atoms.torsion_angle` by extract/tables_c15.py on every run and expanded in the coordinates of the four atoms —
-    is the triple product of the bond vectors.  An edit of any term of the hand-expanded polynomial breaks this proof. -/
-theorem extracted_direction_eq_triple {K : Type} [Field K] (p1 p2 p3 p4 : V3 K) :
-    Extracted.directionSrc p1 p2 p3 p4 = triple (p2.sub p1) (p3.sub p2) (p4.sub p3) := by
-  simp only [Extracted.directionSrc, triple, V3.sub]; ring
+/-! ## the tie to the traced source (`ShelxModel/Extracted/C15Src.lean`, regenerated on every run)
+
+  `extract/trace_c15.py` reads a file with `Shelxfile.read_string` whose numbers are placeholders and calls
+  `Atoms.torsion_angle`, `Atoms.angle`, `Atoms.distance`, `Atom.cart_coords` (parsed atom, atom moved with the
+  `frac_coords` setter, atom made by `add_atom`) and `Atom.find_atoms_around` of the working tree on the parsed objects.
+  What CPython computed is written out as the straight-line definitions `Src.…`; every comparison of a symbolic number
+  made on the way is captured with the expressions compared and evaluated to a *region mask* (on which part of the real
+  line the traced path is the one taken).  Each `src_…` theorem says: for ALL inputs the traced program IS the
+  hand-written model function the property theorems above are about.  Helpers the code was moved into, renamed locals,
+  loops over index tables, re-ordered or re-associated sums, `0 < d` for `d > 0`, `-degrees(x)` for `degrees(-x)` all
+  yield the same statements (ring normalisation inside `sqrt`/`acos`/`degrees`; `degrees` odd where stated).  A changed
+  term of the sign polynomial, `>=` for `>`, a further branch, a different distance formula break them.
+  Outside these theorems: rounding, and the two closed ends `cos φ = ±1` of the clamp (reached by rounding only; sampled
+  by the harness in its planar mode). -/
+
+-- the traced definitions change with the source: a tactic that has nothing left to do for one spelling closes the goal for another
+set_option linter.unusedTactic false
+set_option linter.unreachableTactic false
+set_option linter.unnecessarySeqFocus false
+set_option linter.unusedVariables false
+
+def flatV {K : Type} (v : V3 K) : List K := [v.x, v.y, v.z]
+
+/-- unfold the traced definition and the model, normalise as commutative-ring expressions (inside the arguments of the
+    opaque functions too), and — where `degrees` is known to be odd — pull signs out of it -/
+syntax "src_tie" "[" Lean.Parser.Tactic.simpLemma,* "]" : tactic
+macro_rules
+  | `(tactic| src_tie [$ls,*]) => `(tactic| (simp only [$ls,*] <;> try ring_nf))
+
+section src
+variable {K : Type} [Field K]
+
+/-- **src_torsionDir**: the expression whose comparison with 0 decides the sign of `Atoms.torsion_angle` in the working
+    tree is the model's `direction` of the four atoms' Cartesian positions -/
+theorem src_torsionDir (p1 p2 p3 p4 : V3 K) :
+    Src.torsionDir p1.x p1.y p1.z p2.x p2.y p2.z p3.x p3.y p3.z p4.x p4.y p4.z = direction p1 p2 p3 p4 := by
+  simp only [Src.torsionDir, direction, directionCode, V3.sub] <;> ring
+
+/-- **src_torsionDir_eq_triple**: the sign expression *as the source has it now* is the triple product of the bond
+    vectors.  An edit of any term of the hand-expanded polynomial breaks this proof. -/
+theorem src_torsionDir_eq_triple (p1 p2 p3 p4 : V3 K) :
+    Src.torsionDir p1.x p1.y p1.z p2.x p2.y p2.z p3.x p3.y p3.z p4.x p4.y p4.z
+      = triple (p2.sub p1) (p3.sub p2) (p4.sub p3) := by
+  simp only [Src.torsionDir, triple, V3.sub] <;> ring
+
+/-- the same expression decides on the second traced path -/
+theorem src_torsionDirNeg (p1 p2 p3 p4 : V3 K) :
+    Src.torsionDirNeg p1.x p1.y p1.z p2.x p2.y p2.z p3.x p3.y p3.z p4.x p4.y p4.z = direction p1 p2 p3 p4 := by
+  simp only [Src.torsionDirNeg, direction, directionCode, V3.sub] <;> ring
+
+/-- **src_torsionPos**: what `torsion_angle` returns on the path of a positive sign expression (clamp not acting) -/
+theorem src_torsionPos (T : Trans K) (p1 p2 p3 p4 : V3 K) :
+    Src.torsionPos T.acos T.deg T.sqrt p1.x p1.y p1.z p2.x p2.y p2.z p3.x p3.y p3.z p4.x p4.y p4.z
+      = T.deg (T.acos (torsionCos T p1 p2 p3 p4)) := by
+  src_tie [Src.torsionPos, torsionCos, torsionNum, sq3, V3.sub, V3.cross]
+
+/-- **src_torsionNeg**: … and on the other path.  `degrees` odd: the source may negate before or after it. -/
+theorem src_torsionNeg (T : Trans K) (hdeg : ∀ x, T.deg (-x) = -T.deg x) (p1 p2 p3 p4 : V3 K) :
+    Src.torsionNeg T.acos T.deg T.sqrt p1.x p1.y p1.z p2.x p2.y p2.z p3.x p3.y p3.z p4.x p4.y p4.z
+      = T.deg (-(T.acos (torsionCos T p1 p2 p3 p4))) := by
+  simp only [Src.torsionNeg, torsionCos, torsionNum, sq3, V3.sub, V3.cross] <;> (try ring_nf) <;> (try simp only [hdeg])
+    <;> (try ring_nf)
+
+/-- **src_angle**: `Atoms.angle` of the working tree is `angleModel` -/
+theorem src_angle (T : Trans K) (p1 p2 p3 : V3 K) :
+    Src.angle T.acos T.deg T.round9 T.sqrt p1.x p1.y p1.z p2.x p2.y p2.z p3.x p3.y p3.z = angleModel T p1 p2 p3 := by
+  src_tie [Src.angle, angleModel, vecAngle, vecCos, V3.dot, V3.normSq, V3.sub]
+
+/-- **src_namedDistance**: `Atoms.distance` of the working tree is the Euclidean distance of the stored positions -/
+theorem src_namedDistance (T : Trans K) (p q : V3 K) :
+    Src.namedDistance T.sqrt p.x p.y p.z q.x q.y q.z = euclid T p q := by
+  src_tie [Src.namedDistance, euclid, V3.sub]
+
+/-- the cell of the model with the volume the source's matrix uses: `a b c · w`, `w` the one square root it takes -/
+def cellOfRoot (C : Cell K) (w : K) : Cell K := { C with v := C.a * C.b * C.c * w }
+
+/-- **src_atomCart**: the Cartesian coordinates of an atom parsed from the file text are `cart` (`M · frac`) -/
+theorem src_atomCart (C : Cell K) (w : K) (f : V3 K) :
+    Src.atomCart C.a C.b C.c C.ca C.cb C.cg C.sg w f.x f.y f.z = flatV (cart (cellOfRoot C w) f) := by
+  src_tie [Src.atomCart, cart, cellOfRoot, flatV]
+
+/-- **src_movedCart**: … and so are those of an atom moved with the `frac_coords` setter -/
+theorem src_movedCart (C : Cell K) (w : K) (f : V3 K) :
+    Src.movedCart C.a C.b C.c C.ca C.cb C.cg C.sg w f.x f.y f.z = flatV (cart (cellOfRoot C w) f) := by
+  src_tie [Src.movedCart, cart, cellOfRoot, flatV]
+
+/-- **src_volRadicand**: the radicand of that square root; with `w² =` this, `cellOfRoot C w` meets `CellOK.vol` -/
+theorem src_volRadicand (C : Cell K) :
+    Src.volRadicand C.a C.b C.c C.ca C.cb C.cg = 1 + 2 * C.ca * C.cb * C.cg - C.ca * C.ca - C.cb * C.cb - C.cg * C.cg := by
+  simp only [Src.volRadicand] <;> ring
+
+theorem cellOfRoot_vol (C : Cell K) (w : K) (hw : w * w = Src.volRadicand C.a C.b C.c C.ca C.cb C.cg) :
+    (cellOfRoot C w).v * (cellOfRoot C w).v = C.a * C.a * (C.b * C.b) * (C.c * C.c)
+      * (1 + 2 * C.ca * C.cb * C.cg - C.ca * C.ca - C.cb * C.cb - C.cg * C.cg) := by
+  rw [← src_volRadicand, ← hw]; simp only [cellOfRoot]; ring
+
+/-- **src_addedCart**: the Cartesian coordinates of an atom made by `Shelxfile.add_atom` are `cartAstar` -/
+theorem src_addedCart (T : Trans K) (C : Cell K) (f : V3 K) :
+    Src.addedCart T.sqrt C.a C.b C.c C.ca C.cb C.cg C.sb C.sg f.x f.y f.z = flatV (cartAstar T C f) := by
+  src_tie [Src.addedCart, cartAstar, flatV]
+
+/-- **src_aroundDist**: the number `find_atoms_around` compares with `dist` is `metricDist` of the two atoms -/
+theorem src_aroundDist (T : Trans K) (C : Cell K) (f1 f2 : V3 K) :
+    Src.aroundDist T.sqrt C.a C.b C.c C.ca C.cb C.cg f1.x f1.y f1.z f2.x f2.y f2.z = metricDist T C f1 f2 := by
+  src_tie [Src.aroundDist, metricDist, metricRadicand, V3.sub]
+
+end src
+
+/-- region masks of the comparisons on the traced paths (extract/trace_c15.py `regions`): for the sign expression bit 0
+    is `< 0`, bit 1 `= 0`, bit 2 `> 0`; for the `acos` argument bit 2 is the open interval `(-1, 1)` -/
+def torsionPathsOK : List Nat → Bool
+  | [pos, neg, cpos, cneg] => pos == 4 && neg == 3 && cpos &&& 4 == 4 && cneg &&& 4 == 4
+  | _ => false
+
+/-- **src_torsionPaths**: the first traced path of `torsion_angle` is taken exactly when the sign expression is `> 0`,
+    the second exactly when it is `= 0` or `< 0` (the model's `if 0 < direction … else …`; `>=` for `>` would give
+    `[6, 1, …]`), and both are valid for every `acos` argument strictly between -1 and 1 -/
+theorem src_torsionPaths : torsionPathsOK (Src.torsionPaths (K := Nat)) = true := by decide
+
+/-- **src_aroundPaths**: an atom passes the distance test of `find_atoms_around` exactly when the compared number is
+    `< dist` (mask 1), and fails it when it is `= dist` or `> dist` (mask 6) -/
+theorem src_aroundPaths : Src.aroundPaths (K := Nat) = [1, 6] := by decide
+
+/-- the program the traced paths and their path conditions describe -/
+noncomputable def srcTorsion (T : Trans ℝ) (p1 p2 p3 p4 : V3 ℝ) : ℝ :=
+  if 0 < Src.torsionDir p1.x p1.y p1.z p2.x p2.y p2.z p3.x p3.y p3.z p4.x p4.y p4.z
+  then Src.torsionPos T.acos T.deg T.sqrt p1.x p1.y p1.z p2.x p2.y p2.z p3.x p3.y p3.z p4.x p4.y p4.z
+  else Src.torsionNeg T.acos T.deg T.sqrt p1.x p1.y p1.z p2.x p2.y p2.z p3.x p3.y p3.z p4.x p4.y p4.z
+
+/-- **src_torsion**: `Atoms.torsion_angle` of the working tree, as traced, is `torsionModel` on every quadruple whose
+    `acos` argument lies strictly inside `(-1, 1)` (every non-planar, non-degenerate one: `torsion_cos_range`) -/
+theorem src_torsion (T : Trans ℝ) (hdeg : ∀ x, T.deg (-x) = -T.deg x) (p1 p2 p3 p4 : V3 ℝ)
+    (h1 : -1 < torsionCos T p1 p2 p3 p4) (h2 : torsionCos T p1 p2 p3 p4 < 1) :
+    srcTorsion T p1 p2 p3 p4 = torsionModel T p1 p2 p3 p4 := by
+  simp only [srcTorsion, torsionModel, src_torsionDir, src_torsionPos, src_torsionNeg T hdeg, clamp_id _ h1.le h2.le]
 
 /-- hence the model's `direction` is the source's expression -/
-theorem direction_eq_extracted {K : Type} [Field K] (p1 p2 p3 p4 : V3 K) :
-    direction p1 p2 p3 p4 = Extracted.directionSrc p1 p2 p3 p4 := by
-  rw [direction_eq, extracted_direction_eq_triple]
+theorem direction_eq_src {K : Type} [Field K] (p1 p2 p3 p4 : V3 K) :
+    direction p1 p2 p3 p4 = Src.torsionDir p1.x p1.y p1.z p2.x p2.y p2.z p3.x p3.y p3.z p4.x p4.y p4.z :=
+  (src_torsionDir p1 p2 p3 p4).symm
 
 end Shelx.C15
